@@ -94,6 +94,39 @@ mutual
     | k :: rest => max (height k + 1) (heightL rest)
 end
 
+/-! ## Uncovered nodes: what a re-parse has to lex / create
+
+`sh` marks the nodes of the NEW tree that were taken over from the old tree (on the implementation:
+the heap address occurs in the old tree).  A node is *covered* when it or an ancestor is shared;
+the uncovered leaves are the tokens the lexer had to deliver (C01 `reused_not_lexed`: the tokens
+below a reused subtree are never requested), the uncovered inner nodes are the nodes the parser had
+to create. -/
+
+mutual
+  /-- Uncovered nodes at depth `d` below `t`, in document order. -/
+  def levelListU (sh : Tree → Bool) (t : Tree) (off d : Nat) : List (Nat × Tree) :=
+    if sh t then [] else
+    match d with
+    | 0 => [(off, t)]
+    | d + 1 => match t with
+      | .mk _ ks => levelKidsU sh ks off d
+  def levelKidsU (sh : Tree → Bool) (ks : List Tree) (off d : Nat) : List (Nat × Tree) :=
+    match ks with
+    | [] => []
+    | k :: rest => levelListU sh k off d ++ levelKidsU sh rest (off + k.totalBytes) d
+end
+
+/-- All uncovered nodes down to depth `h`. -/
+def uncoveredTotal (sh : Tree → Bool) (t : Tree) : Nat → Nat
+  | 0 => (levelListU sh t 0 0).length
+  | h + 1 => uncoveredTotal sh t h + (levelListU sh t 0 (h + 1)).length
+
+/-- Uncovered nodes that do NOT reach the window `[S, E]` (on the pinned runtime: the rebuilt
+fragile repeat spine, re-parsed statements that start with the word token, …). -/
+def strayTotal (sh : Tree → Bool) (t : Tree) (S E : Nat) : Nat → Nat
+  | 0 => ((levelListU sh t 0 0).filter (fun x => !reaches x.2 x.1 S E)).length
+  | h + 1 => strayTotal sh t S E h + ((levelListU sh t 0 (h + 1)).filter (fun x => !reaches x.2 x.1 S E)).length
+
 /-- Items of a level that reach the window `[S, E]`. -/
 def reachL (xs : List (Nat × Tree)) (S E : Nat) : List (Nat × Tree) :=
   xs.filter (fun x => reaches x.2 x.1 S E)
